@@ -10,5 +10,7 @@ import (
 
 func main() {
 	p, h := os.Args[1], os.Args[2]
-	fmt.Println(coregex.MustCompile(p).FindStringIndex(h), regexp.MustCompile(p).FindStringIndex(h))
+	a, b := coregex.MustCompile(p), regexp.MustCompile(p)
+	fmt.Println("coregex", a.MatchString(h), a.FindStringIndex(h), a.FindAllStringIndex(h, -1))
+	fmt.Println("stdlib ", b.MatchString(h), b.FindStringIndex(h), b.FindAllStringIndex(h, -1))
 }
